@@ -57,6 +57,15 @@ def prefix_ops(g, target):
             f = rng.choice(g.worktree_files())
             yield g.git("add", "--", f)
             yield g.git("commit", "-q", "-m", g.msg(), target=True)
+    elif target == "commit_hunks" and g.cfg.get("fault_family") == "git":
+        # "git add, keep typing, git commit": an agent appends a block, a person appends lines right below it, everything
+        # is staged; then the person types a few more lines further up and commits without staging them
+        f = path or rng.choice(g.worktree_files())
+        yield g.ai_edit(path=f, kinds=["append"], max_block=4)
+        yield g.human_edit(path=f, kinds=["append"], pre_ckpt=True, max_block=6)
+        yield g.git("add", "--", f)
+        yield g.human_edit(path=f, kinds=["insert"], pos="top", pre_ckpt=rng.random() < 0.5, max_block=3)
+        yield g.git("commit", "-q", "-m", g.msg(), target=True)
     elif target == "commit_hunks":
         # several AI / human insertion blocks in one file, some of them staged by hunk (git add -p): the commit that
         # leaves unstaged insertions above committed AI lines is the target
